@@ -86,3 +86,63 @@ def field_mutations(ctx, func, attrs):
                 out.append(Mut(func, n, fo[0], fo[1], "call:" + n.func.attr,
                                args=n.args, via_alias=fo[2]))
     return out
+
+
+# ---------------------------------------------------------------------------
+# iteration kinds (DESIGN.md 2.7-1)
+# ---------------------------------------------------------------------------
+RAW, FILTERED, DENSE, LAZY = "RAW", "FILTERED", "DENSE", "LAZY-STREAM"
+FILTERED_METHODS = {"__iter__", "iterOccupancy", "iterRange", "iterActive"}
+DENSE_METHODS = {"iterShape", "iterShapeRef", "iterActiveShape",
+                 "iterActiveShapeRef", "iterRangeShape", "iterRangeShapeRef",
+                 "coiterShape", "coiterShapeRef", "coiterActiveShape",
+                 "coiterActiveShapeRef", "coiterRangeShape",
+                 "coiterRangeShapeRef", "iterUncompressed"}
+
+
+def iter_kind(ctx, func, it):
+    """(kind, fiber expression text) of iterating expression `it`."""
+    if isinstance(it, ast.Call):
+        fn = text(it.func)
+        if fn in ("enumerate", "reversed", "list", "iter", "sorted", "tuple") \
+                and it.args:
+            return iter_kind(ctx, func, it.args[0])
+        if fn == "zip" and it.args:
+            ks = [iter_kind(ctx, func, a) for a in it.args]
+            if all(k[0] == RAW for k in ks) and len({k[1] for k in ks}) == 1:
+                return ks[0]
+            return (None, None)
+        if fn == "range" and it.args:
+            a = it.args[-1] if len(it.args) < 3 else it.args[1]
+            if isinstance(a, ast.Call) and text(a.func) == "len" and a.args:
+                inner = a.args[0]
+                if isinstance(inner, ast.Attribute) and inner.attr in ("coords", "payloads"):
+                    return (RAW, text(inner.value))
+            return (None, None)
+        if isinstance(it.func, ast.Attribute):
+            m = it.func.attr
+            base = text(it.func.value)
+            if m in ("getPayloads", "getCoords"):
+                return (RAW, base)
+            if m in FILTERED_METHODS:
+                return (FILTERED, base)
+            if m in DENSE_METHODS:
+                return (DENSE, base)
+            if m == "iter" and not it.args:
+                return (LAZY, base)
+        return (None, None)
+    if isinstance(it, ast.Attribute) and it.attr in ("coords", "payloads"):
+        return (RAW, text(it.value))
+    if isinstance(it, ast.Name):
+        from . import pat
+        v = pat.single_def(ctx, func, it)
+        if v is not None and isinstance(v, (ast.Call, ast.Attribute, ast.GeneratorExp)):
+            k = iter_kind(ctx, func, v)
+            if k[0]:
+                return k
+    if isinstance(it, ast.GeneratorExp) and len(it.generators) == 1:
+        return iter_kind(ctx, func, it.generators[0].iter)
+    t = ctx.ty.expr(func, it)
+    if "Fiber" in t and not (t - {"Fiber", "Payload"}):
+        return (FILTERED, text(it))
+    return (None, None)
